@@ -24,6 +24,25 @@ ACTIONS = list(range(9))
 SNP = [2, 3, 4]
 STATUS_NAT = [0, 1, 2, 15, 16, 17, 31, 32, 33, 34, 35, 47, 48, 49, 50, 51, 63, 64, 65, 66, 67, 79, 80, 81, 95,
               96, 97, 98, 111, 112, 114, 127, 128, 130, 143]
+STD_ACTION = {"CREATE_FILE_SNM": 0, "DELETE_FILE_SNN": 1, "RENAME_FILE_SNP": 2, "APPEND_FILE_SNP": 3, "REPLACE_FILE_SNP": 4,
+              "CREATE_DIR_SNN": 5, "REMOVE_DIR_SNN": 6, "DENY_FILE_SMM": 7, "DENY_DIR_SNN": 8}
+# status code = action code * 16 + status nibble of table 5-18
+STD_STATUS = {"SUCCESS": 0, "NOT_PERFORMED": 15, "APPEND_FROM_DATA_FILE_NOT_EXISTS": 2, "CREATE_SUCCESS": 0, "CREATE_NOT_ALLOWED": 1,
+              "CREATE_NOT_PERFORMED": 15, "DELETE_SUCCESS": 16, "DELETE_FILE_DOES_NOT_EXIST": 17, "DELETE_NOT_ALLOWED": 31,
+              "RENAME_SUCCESS": 32, "RENAME_OLD_FILE_DOES_NOT_EXIST": 33, "RENAME_NEW_FILE_DOES_EXIST": 34, "RENAME_NOT_ALLOWED": 35,
+              "RENAME_NOT_PERFORMED": 47, "APPEND_SUCCESS": 48, "APPEND_FILE_NAME_ONE_NOT_EXISTS": 49,
+              "APPEND_FILE_NAME_TWO_NOT_EXISTS": 50, "APPEND_NOT_ALLOWED": 51, "APPEND_NOT_PERFORMED": 63, "REPLACE_SUCCESS": 64,
+              "REPLACE_FILE_NAME_ONE_TO_BE_REPLACED_DOES_NOT_EXIST": 65, "REPLACE_FILE_NAME_TWO_REPLACE_SOURCE_NOT_EXIST": 66,
+              "REPLACE_NOT_ALLOWED": 67, "REPLACE_NOT_PERFORMED": 79, "CREATE_DIR_SUCCESS": 80, "CREATE_DIR_CAN_NOT_BE_CREATED": 81,
+              "CREATE_DIR_NOT_PERFORMED": 95, "REMOVE_DIR_SUCCESS": 96, "REMOVE_DIR_DOES_NOT_EXIST": 97, "REMOVE_DIR_NOT_ALLOWED": 98,
+              "REMOVE_DIR_NOT_PERFORMED": 111, "DENY_FILE_DEL_SUCCESS": 112, "DENY_FILE_DEL_NOT_ALLOWED": 114,
+              "DENY_FILE_DEL_NOT_PERFORMED": 127, "DENY_DIR_DEL_SUCCESS": 128, "DENY_DIR_DEL_NOT_ALLOWED": 130,
+              "DENY_DIR_DEL_NOT_PERFORMED": 143, "INVALID": -1}
+STD_CONDITION = {"NO_CONDITION_FIELD": -1, "NO_ERROR": 0, "POSITIVE_ACK_LIMIT_REACHED": 1, "KEEP_ALIVE_LIMIT_REACHED": 2,
+                 "INVALID_TRANSMISSION_MODE": 3, "FILESTORE_REJECTION": 4, "FILE_CHECKSUM_FAILURE": 5, "FILE_SIZE_ERROR": 6,
+                 "NAK_LIMIT_REACHED": 7, "INACTIVITY_DETECTED": 8, "CHECK_LIMIT_REACHED": 10, "UNSUPPORTED_CHECKSUM_TYPE": 11,
+                 "SUSPEND_REQUEST_RECEIVED": 14, "CANCEL_REQUEST_RECEIVED": 15}
+STD_HANDLER = {"NOTICE_OF_CANCELLATION": 1, "NOTICE_OF_SUSPENSION": 2, "IGNORE_ERROR": 3, "ABANDON_TRANSACTION": 4}
 CLS_TYPE = {"fs_request": 0, "fs_response": 1, "msg_to_user": 2, "fault_handler": 4, "flow_label": 5, "entity_id": 6}
 WRAP = {"entity_id": EntityIdTlv, "flow_label": FlowLabelTlv, "msg_to_user": MessageToUserTlv}
 CLASSES = {"entity_id": EntityIdTlv, "flow_label": FlowLabelTlv, "msg_to_user": MessageToUserTlv,
@@ -537,6 +556,14 @@ class C08(Prop):
             d.append("ConditionCode members")
         if sorted(int(x) for x in FaultHandlerCode) != HC_MEMBERS:
             d.append("FaultHandlerCode members")
+        # named constants against the standard's tables (727.0-B-5 tables 5-16..5-19), by NAME: a wrong value
+        # that merely becomes an alias of another member leaves the set of values intact
+        for enum, exp in ((FilestoreResponseStatusCode, STD_STATUS), (FilestoreActionCode, STD_ACTION),
+                          (ConditionCode, STD_CONDITION), (FaultHandlerCode, STD_HANDLER)):
+            live = {n: int(v) for n, v in enum.__members__.items()}
+            for n in sorted(set(live) | set(exp)):
+                if live.get(n) != exp.get(n):
+                    d.append(f"{enum.__name__}.{n} = {live.get(n)} (standard: {exp.get(n)})")
         if CfdpTlv.MINIMAL_LEN != 2:
             d.append("CfdpTlv.MINIMAL_LEN")
         if bytes(tlvmod.create_cfdp_proxy_and_dir_op_message_marker()) != b"cfdp":
